@@ -119,17 +119,25 @@ namespace BitSerializer::Convert::Detail
 			}
 			else
 			{
-				if (static_cast<TOpRep>(duration.count()) > std::numeric_limits<TOpRep>::max() / TDivRatio::num ||
-					static_cast<TOpRep>(duration.count()) < std::numeric_limits<TOpRep>::min() / TDivRatio::num)
-				{
-					throw std::out_of_range("Target duration is not enough");
+				if constexpr (std::is_signed_v<TRep> && !std::is_signed_v<TTargetRep>) {
+					if (duration.count() < 0) {
+						throw std::out_of_range("Target duration is not enough");
+					}
 				}
-
-				const auto v = static_cast<TTargetRep>(static_cast<TOpRep>(duration.count()) * static_cast<TOpRep>(TDivRatio::num) / static_cast<TOpRep>(TDivRatio::den));
-				if (v && static_cast<TRep>(v * TDivRatio::den / TDivRatio::num) != duration.count()) {
+				// The ratio is reduced, so the result is exact only for a count that is a multiple of the denominator
+				if (static_cast<TOpRep>(duration.count()) % static_cast<TOpRep>(TDivRatio::den) != 0) {
 					throw std::out_of_range("Precision of target duration is not enough");
 				}
-				return TTarget(v);
+				const auto q = static_cast<TOpRep>(duration.count()) / static_cast<TOpRep>(TDivRatio::den);
+				if (q > std::numeric_limits<TOpRep>::max() / TDivRatio::num || q < std::numeric_limits<TOpRep>::min() / TDivRatio::num) {
+					throw std::out_of_range("Target duration is not enough");
+				}
+				const auto v = q * static_cast<TOpRep>(TDivRatio::num);
+				const auto t = static_cast<TTargetRep>(v);
+				if (v != static_cast<TOpRep>(t) || (v > 0 && t < 0) || (v < 0 && t > 0)) {
+					throw std::out_of_range("Target duration is not enough");
+				}
+				return TTarget(t);
 			}
 		}
 	}
